@@ -120,6 +120,7 @@ func genString(t *rapid.T, stat *caseStat) value {
 }
 
 type caseStat struct {
+	crossLevel  bool
 	depth       int
 	escape      bool
 	slashEscape bool
@@ -166,6 +167,23 @@ func genNode(t *rapid.T, depth int, stat *caseStat) *node {
 			it.Val = value{Kind: "ident", Text: "leaf"}
 		}
 		n.Items = append(n.Items, it)
+		// cross-level collision: the same flattened key set inside the nested block and, textually
+		// later (or earlier), through a dotted path of the enclosing block
+		if it.Val.Kind == "expr" && rapid.IntRange(0, 2).Draw(t, "crossDup") == 0 {
+			var sub []seg
+			if len(it.Val.Sub.Items) > 0 && rapid.Bool().Draw(t, "crossInner") {
+				sub = it.Val.Sub.Items[rapid.IntRange(0, len(it.Val.Sub.Items)-1).Draw(t, "crossWhich")].Path
+			} else {
+				sub = []seg{{Name: "type"}}
+			}
+			extra := item{Path: append(append([]seg{}, it.Path...), sub...), Val: value{Kind: "ident", Text: identGen.Draw(t, "crossVal")}}
+			if rapid.Bool().Draw(t, "crossBefore") {
+				n.Items = append(n.Items[:len(n.Items)-1:len(n.Items)-1], extra, it)
+			} else {
+				n.Items = append(n.Items, extra)
+			}
+			stat.crossLevel = true
+		}
 	}
 	return n
 }
@@ -338,6 +356,9 @@ func checkExact(t *rapid.T) {
 	}
 	if dup {
 		vk.Class("exact:duplicate-key")
+	}
+	if stat.crossLevel {
+		vk.Class("exact:cross-level-key-collision")
 	}
 	if stat.depth >= 2 || stat.escape || dup {
 		vk.NonTrivial(in1)
